@@ -236,6 +236,11 @@ def k16_connect_cycles(ctx) -> None:
     # so no "nothing changed" shortcut may return before the search
     loops = [w for w in f.body if isinstance(w, (ast.While, ast.For))]
     early = [st for st in (f.body[: f.body.index(loops[0])] if loops else f.body) if C._may_leave(st)]
+    # leaving because the table that is searched is empty is what the loop would do anyway
+    tabs = {h[1]["_M_t"] for h in PT.find_all(f, "_M_t = self.get_one_way_vertices()")}
+    early = [st for st in early if not (isinstance(st, ast.If) and not st.orelse and len(st.body) == 1 and isinstance(st.body[0], ast.Return) and st.body[0].value is None
+                                        and isinstance(st.test, ast.UnaryOp) and isinstance(st.test.op, ast.Not) and isinstance(st.test.operand, ast.Name)
+                                        and st.test.operand.id in tabs)]
     if loops and not early:
         ctx.ok("K16", "connect_cycles always searches (no early return before the search loop)")
     else:
@@ -297,8 +302,19 @@ def k16b_visited_when_expanded(ctx) -> None:
     for c in bad:
         ctx.violation("K16", c, f"`{norm(c)}` marks a neighbour as visited when it is pushed: if it is first reached along a path that closes no cycle, the path that does "
                       "close one is never followed, and the classes on it stay apart")
+    # the set of expanded ends, by role: a local set that takes the end of the popped path outside the neighbour loop
+    def _takes(c) -> bool:
+        if isinstance(c, ast.Call) and isinstance(c.func, ast.Attribute) and isinstance(c.func.value, ast.Name) and c.args:
+            if c.func.attr == "add":
+                return True
+            if c.func.attr == "update" and isinstance(c.args[0], ast.Set) and len(c.args[0].elts) == 1:
+                return True
+        return False
+    mark_sets = {c.func.value.id for c in walk_local(f) if _takes(c) and not any(c is x for x in ast.walk(lp))}
+    mark_sets |= {n.target.id for n in walk_local(f) if isinstance(n, ast.AugAssign) and isinstance(n.op, ast.BitOr) and isinstance(n.target, ast.Name)
+                  and isinstance(n.value, ast.Set) and not any(n is x for x in ast.walk(lp))}
     skips = [n for n in walk_local(f) if isinstance(n, ast.Continue) and not any(n is x for x in ast.walk(lp))
-             and any(p and " in " in t and "visit" in t and "not in" not in t for t, p in C.guard_texts(f, n))]
+             and any(p and " in " in t and "not in" not in t and t.split(" in ")[-1] in mark_sets for t, p in C.guard_texts(f, n))]
     unconditional = [n for n in skips if all(("len(" not in t) for t, p in C.guard_texts(f, n))]
     if not bad:
         if unconditional:
